@@ -44,6 +44,7 @@ static Verdict run_c10(const Case &c)
     Case id;
     id.seti("m", mode);
     id.seti("ao", aoff);
+    id.seti("ps", c.geti("prevshare"));
     id.seti("sh", shape * 4 + c.geti("shapen") % 3);
     id.set("k", hex(key));
     id.set("iv", hex(iv));
@@ -58,6 +59,23 @@ static Verdict run_c10(const Case &c)
     f.distinct = v.distinct;
     return f;
   };
+  // stream objects for a RELATED key (sharing the first `prevshare` bytes) are created and used just before:
+  // whatever a factory or a cipher remembers about "the last key" is then almost, but not quite, this key
+  long prevshare = c.geti("prevshare");
+  if (prevshare > 0 && prevshare < 16)
+  {
+    bytes k2 = key;
+    for (size_t i = (size_t)prevshare; i < 16; i++)
+      k2[i] ^= (uint8_t)(0x35 + 7 * i);
+    uint8_t blk[16] = {1, 2, 3};
+    for (int encdir = 0; encdir < 2; encdir++)
+      if (void *h = wapi::mode_new(encdir == 0, mode, k2.data(), iv.data()))
+      {
+        wapi::mode_run(h, blk, 0);
+        wapi::mode_free(h);
+      }
+    v.classes.push_back("after_streams_for_a_related_key");
+  }
   bytes want = ref::mode_encrypt(mode, key.data(), iv.data(), in);
   void *e = wapi::mode_new(true, mode, key.data(), iv.data());
   if (!e)
@@ -150,6 +168,8 @@ static Case gen_c10()
   c.seti("pstyle", g::range(0, 10) < 7 ? 0 : g::range(1, 4));
   if (g::coin(25))
     c.seti("aoff", g::range(1, 16));
+  if (g::coin(20))
+    c.seti("prevshare", g::oneof<long>({1, 4, 7, 8, 9, 12, 15}));
   if (g::coin(20))
   {
     c.seti("shape", g::range(1, 4));
